@@ -23,9 +23,6 @@ from pathlib import Path
 from vcore import Infra, canon, hexs, pyres
 
 FID = "C08-ecdsa-der-length-sniffing"
-FID_CERT_PSS = "C08-cert-validate-ignores-pss"
-FID_SP_PSS = "C08-sp-create-drops-pss"
-FID_RAW521 = "C08-cli-raw-private-p521"
 
 # NIST curve parameters (FIPS 186-4); used by the pure-Python verifier and to construct signatures with chosen (r, s) sizes
 CURVES = {
@@ -1247,9 +1244,8 @@ def run(ck):
         reqs.append((("validate_chain",) + inp, f"validate_chain {n} {m_real or '-'}", realc))
         if n >= 2:
             want = "".join("1" if direct_valid(chain[i], chain[i + 1]) else "0" for i in range(n - 1))
-            pss_involved = any(is_pss(chain[i]) for i in range(n - 1))
             s3.expect(realc == "ok:" + want, inp, "validate_certificate_chain differs from checking every certificate under the next one's key with the "
-                      "certificate's own signature algorithm", realc, want, finding=FID_CERT_PSS if pss_involved else None)
+                      "certificate's own signature algorithm", realc, want)
         else:
             s3.expect(real[0] == "E:spsdk", inp, "a chain of fewer than two certificates is not refused with an SPSDK error", real)
         if n >= 1:
@@ -1278,12 +1274,11 @@ def run(ck):
                 want = direct_valid(crt, issuer)
                 inp = ("validate", cert_desc.get(hex(crt.cert.serial_number)), "under", cert_desc.get(hex(issuer.cert.serial_number)))
                 s3.note(inp, cls="validate" + ("/pss" if is_pss(crt) else ""))
-                fnd = FID_CERT_PSS if is_pss(crt) else None
                 r1, r2 = pyres(crt.validate, issuer), pyres(issuer.validate_subject, crt)
                 s3.expect(r1 == ("ok", want) and r2 == ("ok", want), inp, "validate / validate_subject differ from cryptography checking the signature with the "
-                          "certificate's own algorithm", (r1, r2), want, finding=fnd)
+                          "certificate's own algorithm", (r1, r2), want)
                 if issuer is crt:
-                    s3.expect(pyres(lambda: crt.self_signed) == ("ok", want), inp + ("self_signed",), "self_signed differs", None, want, finding=fnd)
+                    s3.expect(pyres(lambda: crt.self_signed) == ("ok", want), inp + ("self_signed",), "self_signed differs", None, want)
                 # model: the verify call is made with the model's pss flag
                 ipub = issuer.get_public_key()
                 alg = "ecdsa" if isinstance(ipub, PublicKeyEcc) else ("rsa_pss" if is_pss(crt) else "rsa_v15")
@@ -1422,6 +1417,10 @@ def run(ck):
     def pv(v):
         return ("b:1" if v else "b:0") if isinstance(v, bool) else "s:" + str(v)
 
+    def vtb(v):
+        """the documented meaning of a boolean option (utils.misc.value_to_bool): text is true iff "True" / "true" / "T" / "1" """
+        return v in ("True", "true", "T", "1") if isinstance(v, str) else bool(v)
+
     for label, k in sp_keys:
         is_rsa = isinstance(k, PrivateKeyRsa)
         pub = k.get_public_key()
@@ -1436,7 +1435,7 @@ def run(ck):
             if not is_rsa:
                 return g, ("ecdsa" if pub.verify_signature(g[1], msg) else "??")
             return g, ("pss" if pub.verify_signature(g[1], msg, pss_padding=True) else "v15" if pub.verify_signature(g[1], msg) else "??")
-        for pss in (None, True, False, "True", "False", ""):
+        for pss in (None, True, False, "True", "False", "", "true", "1", "T", "no"):
             for extra in ({}, {"foo": "bar"}, {"search_paths": "x"}):
                 params = {"type": "file", "file_path": fpath, **({"pss_padding": pss} if pss is not None else {}), **extra}
                 inp = (label, "create", {kk2: repr(vv) for kk2, vv in params.items() if kk2 != "file_path"})
@@ -1450,9 +1449,8 @@ def run(ck):
                 reqs.append((inp, line, f"ok:{kw};{'true' if used == 'pss' else 'false'}" if is_rsa else f"ok:{kw};" + drv_false_or_model(drv, line)))
                 s4.expect(used in ("pss", "v15", "ecdsa"), inp, "the provider's signature does not verify under the key's public key", g)
                 if is_rsa:
-                    want = "pss" if pss else "v15"
-                    s4.expect(used == want, inp, "a provider created with pss_padding=<truthy> does not sign with PSS (or the reverse)", used, want,
-                              finding=FID_SP_PSS if (pss and used == "v15") else None)
+                    want = "pss" if vtb(pss) else "v15"
+                    s4.expect(used == want, inp, "a provider created with pss_padding=<true value> does not sign with PSS (or the reverse)", used, want)
         for pss in (None, True, False):
             kwargs = {} if pss is None else {"pss_padding": pss}
             for how in ("cfg+kwargs", "local_file_key"):
@@ -1471,9 +1469,8 @@ def run(ck):
                     m = drv.ask(line)
                     model_pss = m.endswith("true")
                     s4.compare(inp, "pss" if used == "pss" else "v15", "pss" if model_pss else "v15", "padding used differs from the model of the parameter plumbing")
-                    want = "pss" if pss else "v15"
-                    s4.expect(used == want, inp, "a provider created with pss_padding=<truthy> does not sign with PSS (or the reverse)", used, want,
-                              finding=FID_SP_PSS if (pss and used == "v15" and how == "cfg+kwargs") else None)
+                    want = "pss" if vtb(pss) else "v15"
+                    s4.expect(used == want, inp, "a provider created with pss_padding=<true value> does not sign with PSS (or the reverse)", used, want)
                 # signature_length = actual length = model
                 sl = pyres(lambda: r[1].signature_length)
                 want_len = len(g[1]) if g[0] == "ok" else None
@@ -1524,7 +1521,7 @@ def run(ck):
         cname = pyres(lambda: key_len_curve(L).value)
         if cname[0] == "ok":
             cobj = KeyEccCommon._get_ec_curve_object(EccCurve(cname[1]))
-            if L <= 48:
+            if L <= 48 or L == 66:
                 pk_ok = "1" if pyres(ec.derive_private_key, int.from_bytes(data, "big"), cobj)[0] == "ok" else "0"
             elif L in (64, 96):
                 x, y = int.from_bytes(data[:L // 2], "big"), int.from_bytes(data[L // 2:], "big")
@@ -1549,10 +1546,9 @@ def run(ck):
             rc2 = cli("key", "convert", "-e", "PEM", "-i", rawf, "-o", backf)
             back = pyres(PrivateKey.load, backf) if rc2[0] == 0 and os.path.exists(backf) else ("cli-exit", rc2[0])
             s5.expect(back[0] == "ok" and privnum(back[1]) == privnum(k), inp, "the raw private key written by the CLI is not read back by the CLI to the same key",
-                      back if back[0] != "ok" else "different key", None, finding=FID_RAW521 if curve == "secp521r1" else None)
+                      back if back[0] != "ok" else "different key")
             got = rk_case(raw, "raw-private")
-            s5.expect(got == f"ok:priv:{curve}:{k.d}", inp + ("reconstruct_key",), "reconstruct_key does not recover the raw private scalar", got, None,
-                      finding=FID_RAW521 if curve == "secp521r1" else None)
+            s5.expect(got == f"ok:priv:{curve}:{k.d}", inp + ("reconstruct_key",), "reconstruct_key does not recover the raw private scalar", got)
         inp = (label, "RAW public", {"curve": curve, "private_value": k.d})
         s5.note(inp, cls=f"cli-raw-public/{curve}")
         rc = cli("key", "convert", "-e", "RAW", "--puk", "-i", prk, "-o", praw)
